@@ -230,6 +230,7 @@ class SourceScope(Scope):
         self._unvisited = []
         self._imports = []
         self._star_imports = []
+        self.star_modules = []  # type: list[t.Any]
         self._attr_assigns = []
         self._global_names = {}
         self._pending_memos = []  # type: list[list[tuple[t.Any, str]]]
@@ -326,6 +327,8 @@ class SourceScope(Scope):
             except ImportError:
                 continue
 
+            # the names copied below are those the module had now
+            self.star_modules.append(module)
             for name in iterkeys(module._attrs):
                 if not name.startswith('_'):
                     flow.add_name(ImportedName(name, loc, declared_at, mname, name, True))
